@@ -11,6 +11,7 @@ import (
 
 	"sheensverif/internal/flow"
 	"sheensverif/internal/prog"
+	"sheensverif/internal/pta"
 	"sheensverif/internal/ssau"
 )
 
@@ -586,12 +587,13 @@ func c01Inequal(c *Ctx, m *matchModel) {
 }
 
 func C02(c *Ctx) {
-	c.R.Explanation = "Decides structural necessary conditions of match completeness on the SSA form of package match: (R1) a loop over alternatives (message members or candidate binding sets) is left only by exhaustion or by returning an error — no 'first match wins' exit; (R2) consumed message elements are removed from a copy made for that alternative, never from the map being ranged or shared with another alternative, and every recorded success records its own remaining-elements copy; (R3) in the map case nothing compares the size of the message map and the message map is ranged only for a property variable, so extra members cannot prevent a match; (R4) left-over scalar members are merged under fresh indexes starting at the length of the message array, so they cannot overwrite remaining structured members; (R5) as C01-R6: bindings are private to each alternative. That the union of explored branches is the full set of embeddings is not decided."
+	c.R.Explanation = "Decides structural necessary conditions of match completeness on the SSA form of package match: (R1) a loop over alternatives (message members or candidate binding sets) is left only by exhaustion or by returning an error — no 'first match wins' exit; (R2) consumed message elements are removed from a copy made for that alternative, never from the map being ranged or shared with another alternative, and every recorded success records its own remaining-elements copy; (R3) in the map case nothing compares the size of the message map and the message map is ranged only for a property variable, so extra members cannot prevent a match; (R4) left-over scalar members are merged under fresh indexes starting at the length of the message array, so they cannot overwrite remaining structured members; (R5) as C01-R6: bindings are private to each alternative; (R6) as C03-R1 restricted to pattern and message: no instruction can write them, so a pattern keeps its solutions across uses. That the union of explored branches is the full set of embeddings is not decided."
 	c.R.Rule("C02-R1", "E3", "no early success exit from a loop over alternatives", 4)
 	c.R.Rule("C02-R2", "E1", "consumption on a private copy", 2)
 	c.R.Rule("C02-R3", "E6", "extra members never consulted", 1)
 	c.R.Rule("C02-R4", "E5", "left-over members merged under fresh indexes", 1)
 	c.R.Rule("C02-R5", "E5+E3", "bindings private to each alternative", 2)
+	c.R.Rule("C02-R6", "E1", "matching leaves the pattern and the message intact (a modified pattern loses solutions on its next use)", 8)
 	m := c.newMatchModel()
 	for _, f := range m.fns {
 		c.R.Fn(fname(f))
@@ -750,6 +752,13 @@ func C02(c *Ctx) {
 	}
 	if n4 == 0 {
 		c.R.Break("C02-R4: the merge of left-over members was not found")
+	}
+	// ---- R6
+	if a, _ := c.matchAnalysis(); a != nil {
+		c.reportEffects("C02-R6", a, func(e pta.Effect) bool {
+			return e.Target.Kind == pta.KRoot && (e.Target.Root == "pattern" || e.Target.Root == "fact")
+		})
+		c.dischargeWrites("C02-R6", a)
 	}
 	// ---- R5
 	if m.branchPrivacy("C02-R5") == 0 {
